@@ -140,13 +140,13 @@ VF_HARNESS(array_ref_flat) {   // array_ref = array_ref: flat copy of contiguous
 #pragma unroll
   for(int k = 0; k < D; ++k) { n[k] = vf_range(0, NB); ne *= n[k]; }
   L od = vf_range(0, MEMSZ2 - 1); L os = vf_range(0, MEMSZ2 - 1); vf_assume(od + ne <= MEMSZ2 && os + ne <= MEMSZ2);
-  auto mk = [&](int* base) { return std::apply([&](auto... e) { return multi::array_ref<int, D>(multi::extensions_t<D>{e...}, base); }, std::apply([](auto... x) { return std::make_tuple(multi::index_extension(x)...); }, [&] { if constexpr(D == 1) return std::make_tuple(n[0]); else if constexpr(D == 2) return std::make_tuple(n[0], n[1]); else return std::make_tuple(n[0], n[1], n[2]); }())); };
+  auto mk = [&](int* base) { return std::apply([&](auto... e) { return multi::array_ref<int, D, vf_ptr<int>>(multi::extensions_t<D>{e...}, vf_mkptr<int>(base - (base == g_dst + od ? od : os), MEMSZ2) + (base == g_dst + od ? od : os)); }, std::apply([](auto... x) { return std::make_tuple(multi::index_extension(x)...); }, [&] { if constexpr(D == 1) return std::make_tuple(n[0]); else if constexpr(D == 2) return std::make_tuple(n[0], n[1]); else return std::make_tuple(n[0], n[1], n[2]); }())); };
   auto A = mk(g_dst + od); auto B = mk(g_src + os);
   L form = vf_range(0, 1);
   if(form == 0) { A = B; } else { std::move(A) = B; }
   L c = vf_nondet_long(); vf_assume(0 <= c && c < MEMSZ2);
   if(od <= c && c < od + ne) { vf_assert(g_dst[c] == 1000 + os + (c - od), "flat copy: k-th element from k-th element"); }
   else { vf_assert(g_dst[c] == 100 + c, "cell outside the array_ref is untouched"); }
-  vf_assert(A.data_elements() == g_dst + od && A.num_elements() == ne, "array_ref not rebound");
+  vf_assert(raw_of(A.data_elements()) == g_dst + od && A.num_elements() == ne, "array_ref not rebound");
   vf_reach("array_ref_flat");
 }
